@@ -1081,27 +1081,33 @@ func (sdb *DbSqlite) getNodes(tx *sql.Tx, parent, id, typ string, includeDel boo
 	}
 
 	var q string
+	var args []any
 
 	switch {
 	case parent == "root":
 		// return a single root node
-		q = fmt.Sprintf("SELECT * FROM edges WHERE down = '%v'", sdb.rootNodeID())
+		q = "SELECT * FROM edges WHERE down = ?"
+		args = append(args, sdb.rootNodeID())
 	case parent == "all" && id == "all":
 		return nil, errors.New("invalid combination of parent and id")
 	case parent == "all":
-		q = fmt.Sprintf("SELECT * FROM edges WHERE down = '%v'", id)
+		q = "SELECT * FROM edges WHERE down = ?"
+		args = append(args, id)
 	case id == "all":
-		q = fmt.Sprintf("SELECT * FROM edges WHERE up = '%v'", parent)
+		q = "SELECT * FROM edges WHERE up = ?"
+		args = append(args, parent)
 	default:
 		// both parent and id are specified
-		q = fmt.Sprintf("SELECT * FROM edges WHERE up='%v' AND down = '%v'", parent, id)
+		q = "SELECT * FROM edges WHERE up = ? AND down = ?"
+		args = append(args, parent, id)
 	}
 
 	if typ != "" {
-		q += fmt.Sprintf("AND type = '%v'", typ)
+		q += " AND type = ?"
+		args = append(args, typ)
 	}
 
-	edges, err := sdb.edges(tx, q)
+	edges, err := sdb.edges(tx, q, args...)
 
 	if err != nil {
 		return ret, err
